@@ -100,15 +100,39 @@ def generate(rng, tier):
             for fn in ("adder", "mux", "popcount"):
                 out.append({"fn": "sim", "block": fn, "w": w, "ci": rng.random() < 0.5, "co": rng.random() < 0.5,
                             "vectors": 200, "seed": rng.getrandbits(32)})
-    # spread the (expensive) block cases evenly among the (cheap) helper cases so that the Coq shards are balanced
+    # balance the Coq shards (SHARD cases each): expensive block cases are placed greedily (largest first) into the least loaded
+    # shard, the cheap helper cases fill the shards up
     blocks = out
-    step = max(1, len(helpers) // max(1, len(blocks)))
-    mixed = []
-    for k, h in enumerate(helpers):
-        if k % step == 0 and blocks:
-            mixed.append(blocks.pop(0))
-        mixed.append(h)
-    return mixed + blocks
+    total = len(blocks) + len(helpers)
+    nsh = max(1, -(-total // SHARD))
+    bins, load = [[] for _ in range(nsh)], [0.0] * nsh
+    for k, c in sorted(enumerate(blocks), key=lambda kc: (-_cost(kc[1]), kc[0])):
+        j = min((j for j in range(nsh) if len(bins[j]) < SHARD), key=lambda j: (load[j], j))
+        bins[j].append(c)
+        load[j] += _cost(c)
+    hs = list(helpers)
+    for j in range(nsh):
+        while len(bins[j]) < SHARD and hs:
+            bins[j].append(hs.pop(0))
+    return [c for b in bins for c in b] + hs
+
+
+def _cost(c):
+    """rough Coq seconds of a block case (only used to balance shards)"""
+    fn, w = c["fn"], c.get("w", 0)
+    if fn == "session":
+        return 8.0
+    if c.get("sweep"):
+        return {"popcount": 1.5 * w, "adder": 0.6 * w, "mux": 0.15 * w}.get(fn, 1.0)
+    if c.get("big") or fn == "sim":
+        return 0.2 + w / 16.0
+    if fn == "popcount":
+        return 0.3 + w ** 2 / 3.0
+    if fn == "adder":
+        return 0.2 + w ** 3 / 5.0
+    if fn == "mux":
+        return 0.1 + 2.0 ** w / 30.0
+    return 0.2
 
 
 # ---------------------------------------------------------------- implementation driver
